@@ -2002,7 +2002,13 @@ fn root_main(w: Arc<World>) {
                     if (*n as usize) < rt::live_named(POOL_THREAD_NAME) {
                         w.with(|i| i.stats.max_lowered_below_live += 1);
                     }
-                    sched.verif_set_max_threads(*n as usize);
+                    if (*n as usize) > w.with(|i| i.cur_max) {
+                        // raising the maximum is what lets waiting queues have a thread: only the library's own call asks for one
+                        w.with(|i| i.cur_max = *n as usize);
+                        rt::atomic(|| sched.set_max_threads(*n as usize));
+                    } else {
+                        sched.verif_set_max_threads(*n as usize);
+                    }
                     w.with(|i| {
                         i.cur_max = *n as usize;
                         if *n == 0 {
